@@ -12,6 +12,9 @@ use smartcore::verif_hooks::{verif_best_split_classifier, verif_best_split_regre
 // ---------------------------------------------------------------------------------------------
 macro_rules! reg_split {
     ($name:ident, $n:expr, $p:expr, $wmax:expr, $unw:expr) => {
+        reg_split!($name, $n, $p, 0, $wmax, $unw);
+    };
+    ($name:ident, $n:expr, $p:expr, $wmin:expr, $wmax:expr, $unw:expr) => {
         vp_proof_traps! {
             #[cfg_attr(kani, kani::unwind($unw))]
             fn $name() {
@@ -32,7 +35,7 @@ macro_rules! reg_split {
                     let (a, b) = lat32(-2, 2);
                     yi[i] = a;
                     y[i] = b;
-                    w[i] = anyu(0, $wmax);
+                    w[i] = anyu($wmin, $wmax);
                     wt += w[i];
                 }
                 kani::assume(wt >= 1);
@@ -113,6 +116,9 @@ reg_split!(c05_reg_split_n2_p1, 2, 1, 2, 6);
 reg_split!(c05_reg_split_n3_p1, 3, 1, 2, 7);
 // @vp name=c05_reg_split_n3_p1_w01 prop=C05 tier=quick t=480 fns=DecisionTreeRegressor::find_best_split,quick_argsort_mut size=n=3,p=1 dom=x-lattice(0..3),y-lattice(-2..2),weights0..1,msl1..2,f32 stubs=traps,no_format
 reg_split!(c05_reg_split_n3_p1_w01, 3, 1, 1, 7);
+// every row present with weight 1..2 (total weight up to 6): the leaf-size guard is exercised with candidates on both sides
+// @vp name=c05_reg_split_n3_p1_w12 prop=C05 tier=quick t=480 mem=30 fns=DecisionTreeRegressor::find_best_split,quick_argsort_mut size=n=3,p=1 dom=x-lattice(0..3),y-lattice(-2..2),weights1..2,msl1..2,f32 stubs=traps,no_format
+reg_split!(c05_reg_split_n3_p1_w12, 3, 1, 1, 2, 7);
 // @vp name=c05_reg_split_n2_p2 prop=C05 tier=quick t=480 fns=DecisionTreeRegressor::find_best_split,quick_argsort_mut size=n=2,p=2 dom=x-lattice(0..3),y-lattice(-2..2),weights0..2,msl1..2,f32 stubs=traps,no_format
 reg_split!(c05_reg_split_n2_p2, 2, 2, 2, 6);
 // @vp name=c05_reg_split_n3_p2 prop=C05 tier=thorough t=3600 fns=DecisionTreeRegressor::find_best_split,quick_argsort_mut size=n=3,p=2 dom=x-lattice(0..3),y-lattice(-2..2),weights0..2,msl1..2,f32 stubs=traps,no_format
